@@ -1,3 +1,672 @@
-import Kurbo.Dash
+import Proofs.Lemmas.C13
+import Proofs.Lemmas.C13Arith
+import Proofs.Lemmas.C13Sim
+import Proofs.Lemmas.C13Real
+import Proofs.Lemmas.C13Open
+/-! C13 – Dashing.
+    "Dashing a path yields pieces that lie on the source path, in path order, whose total length equals the length of the
+    path that falls in the 'on' intervals of the pattern shifted by the dash offset, each piece starting and ending where
+    the pattern switches.  The pattern restarts at every sub-path, and on a closed sub-path the final dash is joined to the
+    first when both are on."
+
+    All theorems are about the hand-written model `Kurbo/Dash.lean` (`DashIt`, `dashImpl`, `getInputList`, `DashIt.step`,
+    `DashIt.next`, `dashCollect`, `dash`) exactly as it is.  Helper lemmas and the specification side live in
+    `Proofs/Lemmas/C13.lean` (structure), `C13Arith.lean` (arc-length specification `DashSpec.walk`, `dash_impl`, one
+    `step` on a line), `C13Sim.lean` (simulation of `step` chains), `C13Open.lean` (`dash` end to end on an open polyline),
+    `C13Real.lean` (`LawfulHypotSq ℝ`, witnesses over ℝ).
+
+    PROVED
+    A. structure / totality, for every `[Scalar K]` (so also for `Float`):
+       * `dashImpl_no_panic`, `dashImpl_empty_pattern_panics`, `dash_ix_invariant`, `step_no_panic`, `next_no_panic`,
+         `dashCollect_no_panic`, `dash_no_panic`, `dash_empty_pattern_panics`: for a non-empty pattern the index panic
+         `self.dashes[self.dash_ix]` is unreachable (and for the empty pattern `dash` does panic);
+       * `get_input_loop_progress`, `get_input_loop_outcome`, `get_input_outcome`, `getInputList_skips_empty_closepath`:
+         how `get_input` ends;
+       * `phase_reset_per_subpath`: `MoveTo` and `handle_closepath` restart the pattern at the phase of `dash_impl`;
+       * `step_output_kinds`, `next_polyline_kinds`, `dash_polyline_kinds`: a polyline dashes to a polyline.
+    B. arithmetic, for every lawful `K` (straight segments; geometry needs `LawfulHypotSq K`: `hypot² = x²+y²`, `hypot ≥ 0`):
+       * `dash_impl_phase`, `dash_impl_phase_exists`, `dash_impl_phase_rem_le`: `dash_impl` finds the position of the
+         offset in the periodic pattern (odd-length patterns alternate across the wrap);
+       * `dash_step_line_switch`, `dash_step_line_switch_arclen`, `dash_step_line_end`: one `step` on a line: the emitted
+         point is ON the segment (`l.eval t'`), exactly `dash_remaining` further by arc length, i.e. where the pattern switches;
+       * `dash_vertices_invisible` (= `consume_add`), `dash_conservation_arclen`, `dash_walk_bounds`,
+         `dash_walk_terminates`: the arc-length specification; `steps_are_next_calls`, `dash_segment_refines`,
+         `dash_open_polyline_refines`, `dash_open_polyline_conserves`: the model's `step` chain on an open polyline
+         (state `Working`) emits strokes of total length = the on-length that the specification assigns to ONE straight
+         stretch of the total length, and ends at the specification's pattern position.
+    C. (partial)
+       * `dash_open_conserves`, `dash_open_spec_onlength`: END TO END for ONE OPEN POLYLINE SUB-PATH `M p0 L q L q₁ …`:
+         whenever `dash` returns a list, the total stroke length of that list equals the on-length of the pattern, started
+         at the position of the offset (`dash_impl_phase`), over one straight stretch of the total length of the path, and it
+         lies in `[0, length]`; and when the pattern is on at the offset the output is `E ++ MoveTo p0 :: N` – the first dash
+         comes last (the rotation of "in path order").  The iterator is followed through all four states.
+       * `dash_short_segment_whole`: a segment inside the first dash is returned whole (in particular `dash` does return).
+       * the stash mechanism as equations on the model: `next_toStash_withholds`, `next_fromStash_replays`,
+         `handle_closepath_join`; rotation, join on a closed square, restart per sub-path, odd patterns and `M p Z` are
+         checked on the model itself over `Rat` by `decide +kernel` (last section).
+
+    NOT PROVED
+    * `dash_open_spec` in full (the arc-length INTERVAL of every output piece: sorted, interior-disjoint, inside the on-set,
+      end points at switch points): proved are the total length (C), the per-`step` position of every emitted point (B) and
+      the rotation; the per-piece intervals are not assembled into one statement.
+    * several sub-paths in one path, and closed sub-paths (`dash_closed_spec`: splice of the final dash with the first at a
+      `ClosePath`): only A (no panic, kinds, phase reset) and the equations / `Rat` evaluations of C.
+    * that `dash` returns at all (a fuel bound for `DashIt.next` / `dashCollect`, `next_terminates`) in general: C is
+      conditional on `dash … = .ok out`; unconditional only `dash_short_segment_whole` and the arc-length form
+      `dash_walk_terminates`.
+    * curves (`QuadTo`/`CurveTo`): nothing beyond part A (depends on the accuracy of `inv_arclen`, C03).
+    * patterns with zero or negative entries are outside B and C (`0 ≤ cyc dashes i` / `0 < dashes[i]` are hypotheses).
+    * `Rat` is not an instance of `LawfulHypotSq` (its `hypot` approximates irrational roots), so the non-vacuity witnesses
+      of the geometric theorems are over `ℝ` (`realScalar`); on `Rat` the model is evaluated directly. -/
+set_option linter.unusedSectionVars false
 namespace Kurbo
+open DashSpec
+
+/-! ## A. Structure and totality (every `Scalar`, also `Float`) -/
+section structural
+variable {K : Type} [Scalar K]
+
+/-- `dash_impl` does not panic on a non-empty pattern (whatever the offset and the entries – also negative or NaN), and
+    the index it computes is in range; it starts in `NeedInput` with an empty stash, at the initial phase. -/
+theorem dashImpl_no_panic (inner : List (PathEl K)) (off : K) (dashes : Array K) (fuel : Nat) (hn : 0 < dashes.size) :
+    ∃ it, dashImpl inner off dashes fuel = some it ∧ it.dash_ix < dashes.size ∧ it.init_dash_ix < dashes.size ∧
+      it.dashes = dashes ∧ it.inner = inner ∧ it.PhaseInit ∧ it.state = .NeedInput ∧ it.stash = #[] ∧
+      it.input_done = false ∧ it.closepath_pending = false := by
+  obtain ⟨it, h1, h2, h3, h4, h5, h6, h7, -, h9, h10⟩ := dashImpl_ok inner off dashes fuel hn
+  exact ⟨it, h1, h3 ▸ h2.1, h3 ▸ h2.2, h3, h4, h5, h6, h7, h9, h10⟩
+example : 0 < (#[1, 5, 2, 5] : Array Rat).size := by decide
+
+/-- … and it does panic (`dashes[0]`) on the empty pattern: the hypothesis above is necessary. -/
+theorem dashImpl_empty_pattern_panics (inner : List (PathEl K)) (off : K) (fuel : Nat) :
+    dashImpl inner off (#[] : Array K) fuel = none := rfl
+
+/-- `dash_ix < dashes.len()` and `init_dash_ix < dashes.len()` are kept by everything that touches the phase. -/
+theorem dash_ix_invariant (s : DashIt K) (h : s.IxOk) :
+    s.reset_phase.IxOk ∧ s.handle_closepath.IxOk ∧ s.get_input.IxOk ∧ (∀ b l, (getInputList b l s).IxOk) ∧
+      ∀ r s', s.step = some (r, s') → s'.IxOk :=
+  ⟨reset_phase_ixOk s h, handle_closepath_ixOk s h, get_input_ixOk s h,
+    fun b l => IxOk_of_phase h (getInputList_phase b l s).1 (getInputList_phase b l s).2,
+    fun r s' e => (step_ixOk s s' r h e).1⟩
+
+example : exWorking.IxOk := by unfold DashIt.IxOk exWorking; decide
+example : exWorking.step.map (·.1) = some (some (.MoveTo ⟨6, 0⟩)) := by decide +kernel
+
+/-- hence `step` never hits the index panic … -/
+theorem step_no_panic (s : DashIt K) (h : s.IxOk) :
+    s.step ≠ none ∧ dashAt s.dashes s.dash_ix ≠ none ∧ dashAt s.dashes s.nextIx ≠ none := by
+  refine ⟨step_ne_none s h, ?_, ?_⟩
+  · rw [dashAt_lt _ _ h.1]; exact Option.some_ne_none _
+  · rw [dashAt_lt _ _ (nextIx_lt s h.1)]; exact Option.some_ne_none _
+
+/-- … nor does `Iterator::next`, and the invariant holds for the state it returns … -/
+theorem next_no_panic (fuel : Nat) (s : DashIt K) (h : s.IxOk) :
+    s.next fuel ≠ .panic ∧ (∀ el s', s.next fuel = .some el s' → s'.IxOk) ∧ (∀ s', s.next fuel = .none s' → s'.IxOk) := by
+  have hg := next_inv ixOk_nextInv fuel s h
+  refine ⟨?_, ?_, ?_⟩
+  · intro e
+    rw [e] at hg
+    exact hg step_ne_none
+  · intro el s' e
+    rw [e] at hg
+    exact hg.1
+  · intro s' e
+    rw [e] at hg
+    exact hg
+
+example : (exWorking.next 10).el? = some (.MoveTo ⟨6, 0⟩) := by decide +kernel
+
+/-- … nor `collect()` … -/
+theorem dashCollect_no_panic (n : Nat) (s : DashIt K) (acc : List (PathEl K)) (h : s.IxOk) :
+    dashCollect n s acc ≠ .panic := by
+  have hg := dashCollect_inv ixOk_nextInv n s acc h (fun _ _ => trivial)
+  intro e
+  rw [e] at hg
+  exact hg step_ne_none
+
+/-- … so `dash` with a non-empty pattern never panics (for every path, offset, pattern entries and scalar type). -/
+theorem dash_no_panic (inner : List (PathEl K)) (off : K) (dashes : Array K) (budget : Nat) (hn : 0 < dashes.size) :
+    dash inner off dashes budget ≠ .panic := by
+  obtain ⟨it, h1, h2, -⟩ := dashImpl_ok inner off dashes 100000 hn
+  unfold dash
+  rw [h1]
+  exact dashCollect_no_panic budget it [] h2
+example : 0 < (#[1, 5, 2, 5] : Array Rat).size := by decide
+
+/-- With the empty pattern it does (Rust: index out of bounds in `dash_impl`). -/
+theorem dash_empty_pattern_panics (inner : List (PathEl K)) (off : K) (budget : Nat) :
+    (match dash inner off (#[] : Array K) budget with | .panic => True | _ => False) := by
+  unfold dash
+  rw [dashImpl_empty_pattern_panics]
+  trivial
+
+/-! ### `get_input` -/
+
+/-- `get_input`'s loop consumes at least one element or reports the end of the input. -/
+theorem get_input_loop_progress (b : Bool) (l : List (PathEl K)) (s : DashIt K) :
+    (getInputList b l s).input_done = true ∨ (getInputList b l s).inner.length < l.length :=
+  getInputList_progress b l s
+
+/-- The three ways the loop ends (`DashIt.InputOutcome`, `Proofs/Lemmas/C13.lean`): end of input
+    (`input_done ∧ state = FromStash`); or a segment was loaded with `t = 0`, starting at the previous `last_pt` with the phase
+    untouched, or – after `MoveTo`s – at the last `MoveTo` point (= new `start_pt`) with the phase reset; or a `ClosePath`
+    was handled (`state = FromStash`, phase reset, `closepath_pending`). -/
+theorem get_input_loop_outcome (b : Bool) (l : List (PathEl K)) (s : DashIt K) :
+    s.InputOutcome l (getInputList b l s) := getInputList_outcome b l s
+
+/-- `get_input` itself: a pending `ClosePath` is handled first (state `FromStash`, phase reset, no input consumed),
+    otherwise the loop runs on the remaining input. -/
+theorem get_input_outcome (s : DashIt K) :
+    (s.closepath_pending = true → s.get_input.state = .FromStash ∧ s.get_input.PhaseInit ∧
+        s.get_input.inner = s.inner ∧ s.get_input.t = Scalar.ofRat (0 : Nat)) ∧
+    (s.closepath_pending = false → s.InputOutcome s.inner s.get_input) := by
+  constructor
+  · intro h
+    unfold DashIt.get_input
+    rw [if_pos h]
+    exact ⟨handle_closepath_state s, handle_closepath_phaseInit s, (handle_closepath_fields s).2.1, rfl⟩
+  · intro h
+    unfold DashIt.get_input
+    rw [if_neg (by rw [h]; exact Bool.false_ne_true)]
+    exact getInputList_outcome false s.inner s
+example : exWorking.closepath_pending = false := rfl
+
+/-- A `ClosePath` that closes a sub-path without segments (`subpath_is_empty`) is skipped: directly after a `MoveTo`
+    consumed in the same call, or after another skipped `ClosePath`. -/
+theorem getInputList_skips_empty_closepath (b : Bool) (p : Point K) (rest : List (PathEl K)) (s : DashIt K) :
+    getInputList b (.MoveTo p :: .ClosePath :: rest) s = getInputList b (.MoveTo p :: rest) s ∧
+    getInputList true (.ClosePath :: rest) s = getInputList true rest { s with inner := rest } :=
+  ⟨getInputList_moveTo_closePath b p rest s, rfl⟩
+
+/-! ### the pattern restarts at every sub-path -/
+
+/-- After `get_input` consumed a `MoveTo` (whatever it consumed after it in the same call), and after
+    `handle_closepath`, the phase is the one `dash_impl` computed: `dash_ix = init_dash_ix`,
+    `dash_remaining = init_dash_remaining`, `is_active = init_is_active`; and the `init_*` fields and the pattern are
+    never written. -/
+theorem phase_reset_per_subpath (s : DashIt K) :
+    (∀ p rest, s.closepath_pending = false → s.inner = .MoveTo p :: rest → s.get_input.PhaseInit) ∧
+    s.handle_closepath.PhaseInit ∧ s.reset_phase.PhaseInit ∧
+    s.SameInit s.get_input ∧ s.SameInit s.handle_closepath ∧ (∀ r s', s.IxOk → s.step = some (r, s') → s.SameInit s') := by
+  refine ⟨?_, handle_closepath_phaseInit s, reset_phase_phaseInit s, (get_input_phase s).1,
+    handle_closepath_sameInit s, fun r s' h e => (step_ixOk s s' r h e).2⟩
+  intro p rest hcp hin
+  unfold DashIt.get_input
+  rw [if_neg (by rw [hcp]; exact Bool.false_ne_true), hin]
+  exact getInputList_moveTo_phaseInit false p rest s
+
+/-! ### output kinds -/
+
+/-- Every element produced by `step` is a `MoveTo`, or `seg_to_el` of a sub-segment (of a sub-segment) of the current
+    segment. -/
+theorem step_output_kinds (s s' : DashIt K) (el : PathEl K) (e : s.step = some (some el, s')) :
+    (∃ p, el = .MoveTo p) ∨ (∃ r : Range K, el = segToEl (s.current_seg.subsegment r)) ∨
+      (∃ r r' : Range K, el = segToEl ((s.current_seg.subsegment r).subsegment r')) := step_output s s' el e
+example : exWorking.step.map (·.1) = some (some (.MoveTo ⟨6, 0⟩)) := by decide +kernel
+
+/-- One `next` on a polyline state (remaining input, current segment and stash consist of `MoveTo`/`LineTo`/`ClosePath`
+    and a `Line`): the element returned is `MoveTo`/`LineTo`/`ClosePath` and the new state is again a polyline state. -/
+theorem next_polyline_kinds (fuel : Nat) (s : DashIt K) (h : s.PolyInv) :
+    (∀ el s', s.next fuel = .some el s' → el.isPoly = true ∧ s'.PolyInv) ∧ (∀ s', s.next fuel = .none s' → s'.PolyInv) := by
+  have hg := next_inv polyInv_nextInv fuel s h
+  refine ⟨?_, ?_⟩
+  · intro el s' e
+    rw [e] at hg
+    exact ⟨hg.2, hg.1⟩
+  · intro s' e
+    rw [e] at hg
+    exact hg
+
+example : exWorking.PolyInv := by
+  refine ⟨by decide, ⟨_, rfl⟩, ?_⟩
+  intro el hel
+  simp [exWorking] at hel
+
+/-- If the input has only `MoveTo`/`LineTo`/`ClosePath`, so has the output of `dash`. -/
+theorem dash_polyline_kinds (inner : List (PathEl K)) (off : K) (dashes : Array K) (budget : Nat)
+    (out : List (PathEl K)) (hp : ∀ el ∈ inner, el.isPoly = true) (h : dash inner off dashes budget = .ok out) :
+    ∀ el ∈ out, el.isPoly = true := by
+  unfold dash at h
+  split at h
+  · cases h
+  · rename_i it hit
+    have hg := dashCollect_inv polyInv_nextInv budget it [] (dashImpl_polyInv inner off dashes _ it hp hit)
+      (fun _ hel => by cases hel)
+    rw [h] at hg
+    exact hg
+
+example : (∀ el ∈ [PathEl.MoveTo (⟨0, 0⟩ : Point Rat), .LineTo ⟨4, 0⟩, .LineTo ⟨4, 4⟩, .ClosePath], el.isPoly = true) ∧
+    (dash [.MoveTo ⟨0, 0⟩, .LineTo ⟨4, 0⟩, .LineTo ⟨4, 4⟩, .ClosePath] (0 : Rat) #[3, 2]).okList.isSome = true := by
+  decide +kernel
+
+end structural
+
+/-! ## B. Arithmetic (every lawful scalar; straight segments) -/
+section arithmetic
+variable {K : Type} [Field K] [LinearOrder K] [IsStrictOrderedRing K] [FloorRing K] [Scalar K] [LawfulScalar K]
+
+/-! ### `dash_impl`: the position of the offset in the periodic pattern
+    `cyc dashes j = dashes[j % n]` is the pattern repeated, `prefixSum dashes k = Σ_{j ≤ k} cyc dashes j` the end of its
+    `k`-th entry. -/
+
+/-- `dash_impl` stops at the first entry `steps` of the repeated pattern whose end is not before the offset:
+    `dash_ix = steps mod n`, `dash_remaining = (Σ_{j ≤ steps} dashes[j mod n]) − offset ≥ 0`, and `is_active` flips once per
+    entry, so it is `steps even` – also across the wrap of an odd-length pattern, where entry 0 is "off" the second time
+    round.  (For `offset < 0` this gives `steps = 0` and `dash_remaining = dashes[0] − offset`: the first dash is
+    lengthened; for `0 ≤ offset` the position is inside entry `steps`, `dash_impl_phase_rem_le`.) -/
+theorem dash_impl_phase (inner : List (PathEl K)) (dashes : Array K) (hn : 0 < dashes.size) (offset : K)
+    (steps fuel : Nat) (hf : steps ≤ fuel) (hmin : ∀ k < steps, prefixSum dashes k < offset)
+    (hlast : offset ≤ prefixSum dashes steps) :
+    ∃ it, dashImpl inner offset dashes fuel = some it ∧ it.dash_ix = steps % dashes.size ∧
+      it.dash_remaining = prefixSum dashes steps - offset ∧ 0 ≤ it.dash_remaining ∧
+      it.is_active = decide (steps % 2 = 0) ∧ it.PhaseInit ∧ it.dashes = dashes := by
+  obtain ⟨it, h1, h2, h3, h4, h5, h6⟩ := dashImpl_phase inner dashes hn offset steps fuel hf hmin hlast
+  exact ⟨it, h1, h2, h3, by rw [h3]; linarith, h4, h5, h6⟩
+-- pattern [1,5,2,5], offset 7: entries end at 1, 6, 8: `steps = 2`, inside the dash of length 2 with 1 to go
+example : (∀ k < 2, prefixSum (#[1, 5, 2, 5] : Array Rat) k < 7) ∧ (7 : Rat) ≤ prefixSum #[1, 5, 2, 5] 2 := by
+  decide +kernel
+example : (dashImpl ([] : List (PathEl Rat)) 7 #[1, 5, 2, 5]).map (fun it => (it.dash_ix, it.dash_remaining, it.is_active))
+    = some (2, 1, true) := by decide +kernel
+-- odd-length pattern [2,2,1], offset 6: entries end at 2, 4, 5, 7: `steps = 3`, entry 0 again, but now it is a gap
+example : (∀ k < 3, prefixSum (#[2, 2, 1] : Array Rat) k < 6) ∧ (6 : Rat) ≤ prefixSum #[2, 2, 1] 3 := by
+  decide +kernel
+example : (dashImpl ([] : List (PathEl Rat)) 6 #[2, 2, 1]).map (fun it => (it.dash_ix, it.dash_remaining, it.is_active))
+    = some (0, 1, false) := by decide +kernel
+
+/-- For a pattern of positive entries such a `steps` exists for every offset (so with enough fuel `dash_impl` always ends
+    as described; the model's default fuel is 100000 rounds). -/
+theorem dash_impl_phase_exists (dashes : Array K) (hn : 0 < dashes.size)
+    (hpos : ∀ i, (h : i < dashes.size) → 0 < dashes[i]) (offset : K) :
+    ∃ steps, (∀ k < steps, prefixSum dashes k < offset) ∧ offset ≤ prefixSum dashes steps :=
+  exists_steps dashes hn hpos offset
+example : ∀ i, (h : i < (#[1, 5, 2, 5] : Array Rat).size) → 0 < (#[1, 5, 2, 5] : Array Rat)[i] := by decide +kernel
+
+/-- For `0 ≤ offset` the remaining length does not exceed the entry: the position is inside entry `steps`. -/
+theorem dash_impl_phase_rem_le (dashes : Array K) (offset : K) (h0 : 0 ≤ offset) (steps : Nat)
+    (hmin : ∀ k < steps, prefixSum dashes k < offset) : prefixSum dashes steps - offset ≤ cyc dashes steps :=
+  prefixSum_rem_le dashes offset h0 steps hmin
+
+/-! ### one `step` on a straight segment -/
+
+/-- **Switch inside a line.** State not at the start of a stash (`Working`, or `ToStash` with a non-empty stash), current
+    segment the line `l` of length `L > 0`, `t < 1`, and the current entry ends inside the segment
+    (`dash_remaining < seg_remaining`): the step emits the point `l.eval t'` at `t' = t + dash_remaining / L` – as `LineTo`
+    if the entry was on, as `MoveTo` if it was off –, flips `is_active`, sets `t := t'`, shortens `seg_remaining` by
+    `dash_remaining` and loads the next pattern entry (cyclically). -/
+theorem dash_step_line_switch [LawfulHypotSq K] (s : DashIt K) (l : Line K) (L : K) (hseg : s.current_seg = .Line l)
+    (hL : l.arclen 0 = L) (hLpos : 0 < L) (ht : s.t < 1) (hst : (s.state == .ToStash && s.stash.isEmpty) = false)
+    (hix : s.dash_ix < s.dashes.size) (hlt : s.dash_remaining < s.seg_remaining) :
+    s.step = some (some (if s.is_active then .LineTo (l.eval (s.t + s.dash_remaining / L))
+                         else .MoveTo (l.eval (s.t + s.dash_remaining / L))),
+      { s with state := if s.is_active then .Working else s.state, is_active := !s.is_active,
+               t := s.t + s.dash_remaining / L, seg_remaining := s.seg_remaining - s.dash_remaining,
+               dash_ix := (s.dash_ix + 1) % s.dashes.size, dash_remaining := cyc s.dashes (s.dash_ix + 1) }) :=
+  step_line_switch s l L hseg hL hLpos ht hst hix hlt
+example : ∃ (_ : Scalar ℝ) (_ : LawfulScalar ℝ) (_ : LawfulHypotSq ℝ) (s : DashIt ℝ) (l : Line ℝ) (L : ℝ),
+    s.current_seg = .Line l ∧ l.arclen 0 = L ∧ 0 < L ∧ s.t < 1 ∧ (s.state == .ToStash && s.stash.isEmpty) = false ∧
+      s.dash_ix < s.dashes.size ∧ s.dash_remaining < s.seg_remaining := by
+  obtain ⟨i1, i2, i3, s, l, L, h1, h2, h3, -, -, -, -, h8, -⟩ := exReal_witness
+  exact ⟨i1, i2, i3, s, l, L, h1.seg, h1.len, h3, h1.t_lt, h8, h1.ix, h2⟩
+-- the same step evaluated on the model over `Rat` (axis-parallel, so `hypot` is exact): from t = 1/21, gap of 5: MoveTo (6,0)
+example : exWorking.step.map (fun r => (r.1, r.2.t, r.2.seg_remaining, r.2.dash_ix, r.2.dash_remaining, r.2.is_active))
+    = some (some (.MoveTo ⟨6, 0⟩), 6 / 21, 15, 2, 2, true) := by decide +kernel
+
+/-- The arc-length bookkeeping of that step: with `t' = t + d / L`, the emitted point is `d` further along the line,
+    the invariant `seg_remaining = (1 − t)·L` is kept, `t' < 1`, and the stroke from the pen position `l.eval t` to the
+    emitted point has length exactly `d`. -/
+theorem dash_step_line_switch_arclen [LawfulHypotSq K] (l : Line K) (L t d : K) (hL : l.arclen 0 = L) (hLpos : 0 < L) :
+    ((t + d / L) - t) * L = d ∧ (1 - (t + d / L)) * L = (1 - t) * L - d ∧ (d < (1 - t) * L → t + d / L < 1) ∧
+      (0 ≤ d → (l.eval (t + d / L) - l.eval t).hypot = d) := by
+  have hne : L ≠ 0 := hLpos.ne'
+  refine ⟨by field_simp; ring, by field_simp; ring, ?_, ?_⟩
+  · intro h
+    have : d / L < 1 - t := by rw [div_lt_iff₀ hLpos]; exact h
+    linarith
+  · intro h0
+    have hle : t ≤ t + d / L := by have := div_nonneg h0 hLpos.le; linarith
+    rw [line_eval_dist l _ _ 0 hle, hL]
+    field_simp; ring
+example : ∃ (_ : Scalar ℝ) (_ : LawfulScalar ℝ) (_ : LawfulHypotSq ℝ) (l : Line ℝ) (L : ℝ), l.arclen 0 = L ∧ 0 < L := by
+  obtain ⟨i1, i2, i3, s, l, L, h1, -, h3, -⟩ := exReal_witness
+  exact ⟨i1, i2, i3, l, L, h1.len, h3⟩
+
+/-- **End of a line.** If the rest of the segment fits into the current entry, the step emits the segment end `l.p1` if the
+    entry is on (nothing otherwise), shortens the entry by `seg_remaining` and fetches input.  (No `hypot` law needed.) -/
+theorem dash_step_line_end (s : DashIt K) (l : Line K) (hseg : s.current_seg = .Line l)
+    (hst : (s.state == .ToStash && s.stash.isEmpty) = false) (hnlt : ¬ s.dash_remaining < s.seg_remaining) :
+    s.step = some (if s.is_active then some (.LineTo l.p1) else none,
+      ({ s with dash_remaining := s.dash_remaining - s.seg_remaining } : DashIt K).get_input) :=
+  step_line_end s l hseg hst hnlt
+example : ({ exWorking with dash_remaining := 30 } : DashIt Rat).current_seg = .Line ⟨⟨0, 0⟩, ⟨21, 0⟩⟩ ∧
+    ¬ ({ exWorking with dash_remaining := 30 } : DashIt Rat).dash_remaining
+      < ({ exWorking with dash_remaining := 30 } : DashIt Rat).seg_remaining := by
+  constructor
+  · rfl
+  · show ¬ ((30 : Rat) < 20)
+    decide +kernel
+
+/-! ### the specification by arc length (`DashSpec`, `Proofs/Lemmas/C13Arith.lean`)
+    `Ph = (ix, rem, act)` is a position in the pattern, `walk n pat fuel ph ℓ` advances it by the length `ℓ` and returns the
+    on-length covered (literally the `dash_remaining < seg_remaining` loop on a stretch of length `ℓ`). -/
+
+/-- **Vertices are invisible** (`consume_add`): walking `ℓ₁` and then `ℓ₂` covers the same on-length and ends at the same
+    pattern position as walking `ℓ₁ + ℓ₂` in one piece. -/
+theorem dash_vertices_invisible {K : Type} [Field K] [LinearOrder K] [IsStrictOrderedRing K]
+    (n : Nat) (pat : Nat → K) (f m : Nat) (ph ph1 ph2 : Ph K) (l1 l2 o1 o2 : K) (h2 : 0 ≤ l2)
+    (c1 : walk n pat f ph l1 = some (o1, ph1)) (c2 : walk n pat m ph1 l2 = some (o2, ph2)) :
+    walk n pat (f + m) ph (l1 + l2) = some (o1 + o2, ph2) :=
+  walk_add n pat f m ph ph1 ph2 l1 l2 o1 o2 h2 c1 c2
+-- pattern 1,5,2,5 from its start: 4 then 5 units (the vertex in the middle of the first gap)
+example : walk 4 (fun i => (#[1, 5, 2, 5] : Array Rat).getD i 0) 3 ⟨0, 1, true⟩ (4 : Rat) = some (1, ⟨1, 2, false⟩) ∧
+    walk 4 (fun i => (#[1, 5, 2, 5] : Array Rat).getD i 0) 3 ⟨1, 2, false⟩ (5 : Rat) = some (2, ⟨3, 4, false⟩) ∧
+    walk 4 (fun i => (#[1, 5, 2, 5] : Array Rat).getD i 0) 6 ⟨0, 1, true⟩ (9 : Rat) = some (3, ⟨3, 4, false⟩) := by
+  decide +kernel
+
+/-- **Conservation over a polyline** (arc-length form): dashing the segments `ℓ, ℓ₁, …, ℓₖ` one after the other covers
+    the same on-length, and ends at the same pattern position, as dashing one straight stretch of length `ℓ + Σ ℓᵢ`. -/
+theorem dash_conservation_arclen {K : Type} [Field K] [LinearOrder K] [IsStrictOrderedRing K]
+    (n : Nat) (pat : Nat → K) (f : Nat) (ls : List K) (l : K) (ph ph' : Ph K) (o : K)
+    (hnn : ∀ x ∈ ls, 0 ≤ x) (h : walkList n pat f ph (l :: ls) = some (o, ph')) :
+    walk n pat (f * (ls.length + 1)) ph (l + ls.sum) = some (o, ph') :=
+  walkList_eq_walk n pat f ls l ph ph' o hnn h
+example : walkList 4 (fun i => (#[1, 5, 2, 5] : Array Rat).getD i 0) 4 ⟨0, 1, true⟩ [4, 5, 12]
+    = some (6, ⟨2, 0, true⟩) := by decide +kernel
+
+/-- With a non-negative pattern the on-length of a stretch lies between `0` and its length, and `rem` stays `≥ 0`. -/
+theorem dash_walk_bounds {K : Type} [Field K] [LinearOrder K] [IsStrictOrderedRing K]
+    (n : Nat) (pat : Nat → K) (hpat : ∀ i, 0 ≤ pat i) (f : Nat) (ph ph' : Ph K) (l o : K)
+    (hr : 0 ≤ ph.rem) (hl : 0 ≤ l) (h : walk n pat f ph l = some (o, ph')) : 0 ≤ o ∧ o ≤ l ∧ 0 ≤ ph'.rem :=
+  walk_bounds n pat hpat f ph ph' l o hr hl h
+
+example : walk 4 (fun i => (#[1, 5, 2, 5] : Array Rat).getD i 0) 6 ⟨0, 1, true⟩ (9 : Rat) = some (3, ⟨3, 4, false⟩) ∧
+    (∀ i, (0 : Rat) ≤ (#[1, 5, 2, 5] : Array Rat).getD i 0) := by
+  refine ⟨by decide +kernel, fun i => ?_⟩
+  rcases Nat.lt_or_ge i 4 with h | h
+  · interval_cases i <;> decide +kernel
+  · rw [Array.getD_eq_getD_getElem?, Array.getElem?_eq_none (by simpa using h)]; rfl
+
+/-- Termination, arc-length form: if every entry is at least `m` and the stretch (every segment of the polyline) is at most
+    `(f+1)·m` long, `f + 2` rounds of fuel suffice. -/
+theorem dash_walk_terminates {K : Type} [Field K] [LinearOrder K] [IsStrictOrderedRing K]
+    (n : Nat) (pat : Nat → K) (m : K) (hm : 0 ≤ m) (hpat : ∀ i, m ≤ pat i) (f : Nat) (ph : Ph K) (hr : 0 ≤ ph.rem) :
+    (∀ l : K, l ≤ (f + 1 : Nat) * m → ∃ r, walk n pat (f + 2) ph l = some r) ∧
+    (∀ ls : List K, (∀ l ∈ ls, 0 ≤ l ∧ l ≤ (f + 1 : Nat) * m) → ∃ r, walkList n pat (f + 2) ph ls = some r) :=
+  ⟨fun l hl => walk_terminates n pat m hpat f ph l hr hl,
+   fun ls hls => walkList_terminates n pat m hm hpat f ls ph hr hls⟩
+example : ∃ (_ : Scalar ℝ) (_ : LawfulScalar ℝ) (s : DashIt ℝ), ∀ i, (1 : ℝ) ≤ cyc s.dashes i := by
+  obtain ⟨i1, i2, -, s, -, -, -, -, -, -, h, -⟩ := exReal_witness
+  exact ⟨i1, i2, s, h⟩
+
+/-! ### the model refines the specification (state `Working`, straight segments)
+    `Steps s outs s'`: a chain of `step`s, each taken in state `Working`, from `s` to `s'` producing `outs`; `OnLine s l L`: `s` is in state `Working`
+    inside the line `l` of length `L` (`seg_remaining = (1−t)·L`, `t < 1`, `dash_ix` in range, `dash_remaining ≥ 0`,
+    `last_pt = l.p1`); `s.ph = (dash_ix, dash_remaining, is_active)`; `drawnLen pen outs` = total length of the `LineTo`
+    strokes of `outs` with the pen starting at `pen`; `finEl s₁ l` = the `LineTo l.p1` that the segment-ending `step`
+    emits when the entry is on; `s.SameAux s₁`: `closepath_pending`, `stash`, `stash_ix`, `input_done` are untouched.
+    (`Proofs/Lemmas/C13Sim.lean`.) -/
+
+/-- In state `Working` the chain of `step`s is what successive `next` calls do: a `step` with an element is one `next`,
+    a `step` without is skipped inside `next`. -/
+theorem steps_are_next_calls {K : Type} [Scalar K] (s s1 : DashIt K) (fuel : Nat) (hw : s.state = .Working) :
+    (∀ el, s.step = some (some el, s1) → s.next (fuel + 1) = .some el s1) ∧
+    (s.step = some (none, s1) → s.next (fuel + 1) = s1.next fuel) := by
+  refine ⟨fun el e => ?_, fun e => ?_⟩
+  · unfold DashIt.next; rw [hw]; simp only [e]
+  · conv_lhs => unfold DashIt.next
+    rw [hw]; simp only [e]
+example : exWorking.state = .Working := rfl
+
+/-- **One segment.**  If the specification walks the rest of the current segment from the iterator's pattern position,
+    the iterator makes a chain of switching `step`s to a state `s₁` in the same segment at which the rest fits into the
+    current entry; `s₁` is at the pattern position the specification computes (the subtraction is done by the next,
+    segment-ending `step`), nothing of the input is consumed, and the strokes produced – with the final `LineTo` to the
+    segment end if the entry is on – have total length = the specification's on-length. -/
+theorem dash_segment_refines [LawfulHypotSq K] (l : Line K) (L : K) (f : Nat) (s : DashIt K) (o : K) (ph' : Ph K)
+    (hpat : ∀ i, 0 ≤ cyc s.dashes i) (hon : OnLine s l L)
+    (h : walk s.dashes.size (cyc s.dashes) f s.ph s.seg_remaining = some (o, ph')) :
+    ∃ outs s₁, Steps s outs s₁ ∧ OnLine s₁ l L ∧ s₁.dashes = s.dashes ∧ ¬ s₁.dash_remaining < s₁.seg_remaining ∧
+      ph' = ⟨s₁.dash_ix, s₁.dash_remaining - s₁.seg_remaining, s₁.is_active⟩ ∧
+      s₁.inner = s.inner ∧ s.SameAux s₁ ∧
+      ∀ pen, (s.is_active = true → pen = l.eval s.t) →
+        drawnLen pen (outs ++ finEl s₁ l) = o ∧ (s₁.is_active = true → c13_penAfter pen (outs ++ finEl s₁ l) = l.p1) :=
+  seg_sim l L f s o ph' hpat hon h
+
+example : ∃ (_ : Scalar ℝ) (_ : LawfulScalar ℝ) (_ : LawfulHypotSq ℝ) (s : DashIt ℝ) (l : Line ℝ) (L : ℝ),
+    OnLine s l L ∧ (∀ i, 0 ≤ cyc s.dashes i) ∧
+    ∃ r, walk s.dashes.size (cyc s.dashes) (19 + 2) s.ph s.seg_remaining = some r := by
+  obtain ⟨i1, i2, i3, s, l, L, h1, h2, h3, h4, h5, h6, h7, h8, h9⟩ := exReal_witness
+  refine ⟨i1, i2, i3, s, l, L, h1, h4, ?_⟩
+  refine (dash_walk_terminates s.dashes.size (cyc s.dashes) 1 zero_le_one h5 19 s.ph h1.dash_nonneg).1 _ ?_
+  have := (h9 s.seg_remaining List.mem_cons_self).2
+  push_cast; linarith
+
+/-- **Open polyline.**  The same over `LineTo q₁, …, LineTo qₖ` following in the input: if the specification walks the
+    rest of the current segment and then the `k` further segments (fuel `f` each), the iterator makes a chain of `step`s
+    that consumes exactly these `LineTo`s and ends in the last segment, at the specification's pattern position, having
+    produced strokes of total length = the specification's on-length. -/
+theorem dash_open_polyline_refines [LawfulHypotSq K] (pts : List (Point K)) (rest : List (PathEl K)) (l : Line K) (L : K)
+    (f : Nat) (s : DashIt K) (o : K) (ph' : Ph K) (hpat : ∀ i, 0 ≤ cyc s.dashes i) (hon : OnLine s l L)
+    (hcp : s.closepath_pending = false) (hin : s.inner = pts.map .LineTo ++ rest)
+    (h : walkList s.dashes.size (cyc s.dashes) f s.ph (s.seg_remaining :: polyLens s.last_pt pts) = some (o, ph')) :
+    ∃ outs s₁ l₁ L₁, Steps s outs s₁ ∧ OnLine s₁ l₁ L₁ ∧ s₁.dashes = s.dashes ∧
+      ¬ s₁.dash_remaining < s₁.seg_remaining ∧
+      ph' = ⟨s₁.dash_ix, s₁.dash_remaining - s₁.seg_remaining, s₁.is_active⟩ ∧
+      s₁.inner = rest ∧ s.SameAux s₁ ∧
+      ∀ pen, (s.is_active = true → pen = l.eval s.t) →
+        drawnLen pen (outs ++ finEl s₁ l₁) = o ∧ (s₁.is_active = true → c13_penAfter pen (outs ++ finEl s₁ l₁) = l₁.p1) :=
+  polyline_sim pts rest l L f s o ph' hpat hon hcp hin h
+
+/-- **Conservation of on-length on an open polyline** (vertices are invisible to the model): under the hypotheses above the
+    total length of the strokes the iterator produces equals the on-length that the specification assigns to ONE straight
+    stretch of the total remaining length `seg_remaining + Σ |qᵢ₊₁ − qᵢ|`, walked from the iterator's pattern position; and
+    the iterator ends at that stretch's end position. -/
+theorem dash_open_polyline_conserves [LawfulHypotSq K] (pts : List (Point K)) (rest : List (PathEl K)) (l : Line K) (L : K)
+    (f : Nat) (s : DashIt K) (o : K) (ph' : Ph K) (hpat : ∀ i, 0 ≤ cyc s.dashes i) (hon : OnLine s l L)
+    (hcp : s.closepath_pending = false) (hin : s.inner = pts.map .LineTo ++ rest)
+    (h : walkList s.dashes.size (cyc s.dashes) f s.ph (s.seg_remaining :: polyLens s.last_pt pts) = some (o, ph')) :
+    walk s.dashes.size (cyc s.dashes) (f * (pts.length + 1)) s.ph (s.seg_remaining + (polyLens s.last_pt pts).sum)
+      = some (o, ph') ∧
+    ∃ outs s₁ l₁, Steps s outs s₁ ∧ s₁.inner = rest ∧
+      ph' = ⟨s₁.dash_ix, s₁.dash_remaining - s₁.seg_remaining, s₁.is_active⟩ ∧
+      drawnLen (l.eval s.t) (outs ++ finEl s₁ l₁) = o := by
+  constructor
+  · have := walkList_eq_walk s.dashes.size (cyc s.dashes) f (polyLens s.last_pt pts) s.seg_remaining s.ph ph' o
+      (polyLens_nonneg _ _) h
+    rwa [polyLens_length] at this
+  · obtain ⟨outs, s₁, l₁, L₁, h1, -, -, -, h5, h6, -, h8⟩ := polyline_sim pts rest l L f s o ph' hpat hon hcp hin h
+    exact ⟨outs, s₁, l₁, h1, h6, h5, (h8 _ (fun _ => rfl)).1⟩
+/-- the hypotheses are satisfiable (ℝ; inside (0,0)–(21,0) with `LineTo (21,5)` next, pattern [1,5,2,5]): an `OnLine` state
+    with the right input, and – the pattern being ≥ 1 – the specification's walk exists by `dash_walk_terminates` -/
+example : ∃ (_ : Scalar ℝ) (_ : LawfulScalar ℝ) (_ : LawfulHypotSq ℝ) (s : DashIt ℝ) (l : Line ℝ) (L : ℝ)
+    (pts : List (Point ℝ)) (rest : List (PathEl ℝ)),
+    OnLine s l L ∧ (∀ i, 0 ≤ cyc s.dashes i) ∧ s.closepath_pending = false ∧ s.inner = pts.map .LineTo ++ rest ∧
+    ∃ r, walkList s.dashes.size (cyc s.dashes) (19 + 2) s.ph (s.seg_remaining :: polyLens s.last_pt pts) = some r := by
+  obtain ⟨i1, i2, i3, s, l, L, h1, h2, h3, h4, h5, h6, h7, h8, h9⟩ := exReal_witness
+  refine ⟨i1, i2, i3, s, l, L, _, _, h1, h4, h6, h7, ?_⟩
+  refine (dash_walk_terminates s.dashes.size (cyc s.dashes) 1 zero_le_one h5 19 s.ph h1.dash_nonneg).2 _ ?_
+  intro x hx
+  obtain ⟨a, b⟩ := h9 x hx
+  exact ⟨a, by push_cast; linarith⟩
+
+/-! ## C. (partial) `dash` end to end on one open polyline sub-path (`Proofs/Lemmas/C13Open.lean`)
+    The iterator is followed through `NeedInput → ToStash → Working → FromStash`: the first dash is withheld in the stash
+    and played back at the end of the input. -/
+
+/-- **`dash` on `M p0 L q L q₁ … L qₖ` conserves the on-length.**  Let `it` be the iterator that `dash_impl` builds
+    (`0 ≤ it.dash_remaining`, i.e. its `while` loop ended – `dash_impl_phase`), the pattern non-negative, and let the
+    specification walk the segment lengths from the start position `it.ph`, covering the on-length `o`.  If `dash` returns
+    `out` (it did not run out of its budgets) then
+    * the strokes of `out` have total length `o`, from whatever pen position (`out` starts with a `MoveTo` or is empty);
+    * `o` is also the on-length of ONE straight stretch of the total length of the polyline (vertices are invisible);
+    * if the pattern is on at the offset, `out = E ++ MoveTo p0 :: N`: the first dash `MoveTo p0 :: N` comes LAST
+      (the rotation "dash₂ … dashₙ dash₁"), `E` being what was emitted after it. -/
+theorem dash_open_conserves [LawfulHypotSq K] (p0 q : Point K) (pts : List (Point K)) (off : K) (dashes : Array K)
+    (budget : Nat) (it : DashIt K)
+    (hit : dashImpl (.MoveTo p0 :: .LineTo q :: pts.map .LineTo) off dashes = some it)
+    (hn : 0 < dashes.size) (h0 : 0 ≤ it.dash_remaining) (hpat : ∀ i, 0 ≤ cyc dashes i)
+    (f : Nat) (o : K) (ph' : Ph K)
+    (hw : walkList dashes.size (cyc dashes) f it.ph (polyLens p0 (q :: pts)) = some (o, ph'))
+    (out : List (PathEl K)) (hout : dash (.MoveTo p0 :: .LineTo q :: pts.map .LineTo) off dashes budget = .ok out) :
+    (∀ pen, drawnLen pen out = o) ∧
+    walk dashes.size (cyc dashes) (f * (pts.length + 1)) it.ph (polyLens p0 (q :: pts)).sum = some (o, ph') ∧
+    (it.is_active = true → ∃ N E, out = E ++ .MoveTo p0 :: N ∧ ∀ pen, drawnLen p0 N + drawnLen pen E = o) := by
+  obtain ⟨h1, h2⟩ := dash_open_total p0 q pts off dashes budget it hit hn h0 hpat f o ph' hw out hout
+  refine ⟨?_, ?_, h1⟩
+  · intro pen
+    cases hact : it.is_active
+    · exact h2 hact pen
+    · obtain ⟨N, E, e1, e2⟩ := h1 hact
+      rw [e1, drawnLen_append]
+      simp only [drawnLen]
+      rw [add_comm]; exact e2 pen
+  · have := walkList_eq_walk dashes.size (cyc dashes) f (polyLens q pts) ((Line.mk p0 q).arclen 0) it.ph ph' o
+      (polyLens_nonneg _ _) hw
+    rw [polyLens_length] at this
+    simpa [polyLens] using this
+
+/-- **The same with the natural hypotheses only**: a non-empty pattern of positive entries, `steps` the first entry of
+    the repeated pattern that ends at or after the offset (it exists, `dash_impl_phase_exists`; `dash_impl` needs
+    `steps ≤ 100000` rounds), and `dash` returned `out`.  Then the strokes of `out` have total length = the on-length, over
+    one straight stretch of the polyline's total length, of the pattern started at the position of the offset:
+    entry `steps mod n`, with `(Σ_{j ≤ steps} dashes[j mod n]) − offset` of it still ahead, on iff `steps` is even. -/
+theorem dash_open_spec_onlength [LawfulHypotSq K] (p0 q : Point K) (pts : List (Point K)) (off : K) (dashes : Array K)
+    (budget : Nat) (hn : 0 < dashes.size) (hpos : ∀ i, (h : i < dashes.size) → 0 < dashes[i])
+    (steps : Nat) (hf : steps ≤ 100000) (hmin : ∀ k < steps, prefixSum dashes k < off)
+    (hlast : off ≤ prefixSum dashes steps)
+    (out : List (PathEl K)) (hout : dash (.MoveTo p0 :: .LineTo q :: pts.map .LineTo) off dashes budget = .ok out) :
+    ∃ (f : Nat) (o : K) (ph' : Ph K),
+      walk dashes.size (cyc dashes) f ⟨steps % dashes.size, prefixSum dashes steps - off, decide (steps % 2 = 0)⟩
+        (polyLens p0 (q :: pts)).sum = some (o, ph') ∧
+      (∀ pen, drawnLen pen out = o) ∧ 0 ≤ o ∧ o ≤ (polyLens p0 (q :: pts)).sum := by
+  obtain ⟨it, hit, e1, e2, e3, e4, -, -⟩ :=
+    dash_impl_phase (.MoveTo p0 :: .LineTo q :: pts.map .LineTo) dashes hn off steps 100000 hf hmin hlast
+  obtain ⟨m, hm0, hm⟩ := exists_pos_lower_bound dashes hn hpos
+  have hpat : ∀ i, 0 ≤ cyc dashes i := fun i => le_trans hm0.le (hm i)
+  have hnn := polyLens_nonneg p0 (q :: pts)
+  -- enough fuel for every segment
+  obtain ⟨k, hk⟩ := Archimedean.arch (polyLens p0 (q :: pts)).sum hm0
+  have hlen : ∀ l ∈ polyLens p0 (q :: pts), 0 ≤ l ∧ l ≤ ((k + 1 : Nat) : K) * m := by
+    intro l hl
+    refine ⟨hnn l hl, ?_⟩
+    have h1 := List.single_le_sum hnn l hl
+    rw [nsmul_eq_mul] at hk
+    push_cast
+    nlinarith
+  obtain ⟨⟨o, ph'⟩, hw⟩ := walkList_terminates dashes.size (cyc dashes) m hm0.le hm k (polyLens p0 (q :: pts)) it.ph e3 hlen
+  obtain ⟨c1, c2, -⟩ := dash_open_conserves p0 q pts off dashes budget it hit hn e3 hpat (k + 2) o ph' hw out hout
+  have hph : it.ph = ⟨steps % dashes.size, prefixSum dashes steps - off, decide (steps % 2 = 0)⟩ := by
+    unfold DashIt.ph; rw [e1, e2, e4]
+  rw [hph] at c2
+  have hb := walk_bounds dashes.size (cyc dashes) hpat _ _ ph' _ o (by show 0 ≤ prefixSum dashes steps - off; rw [← e2]; exact e3) (List.sum_nonneg hnn) c2
+  exact ⟨_, o, ph', c2, c1, hb.1, hb.2.1⟩
+/-- the hypotheses are satisfiable over ℝ (`exReal_dash_ok`: the segment (0,0)–(1,0), pattern [2], offset 0, `steps = 0`;
+    `dash` does return there by `dash_short_segment_whole`); the extra hypotheses of `dash_open_conserves`
+    (`0 ≤ it.dash_remaining`, the specification's walk) are derived from these inside the proof above -/
+example : ∃ (_ : Scalar ℝ) (_ : LawfulScalar ℝ) (_ : LawfulHypotSq ℝ) (p0 q : Point ℝ) (pts : List (Point ℝ)) (off : ℝ)
+    (dashes : Array ℝ) (budget steps : Nat) (out : List (PathEl ℝ)),
+    0 < dashes.size ∧ (∀ i, (h : i < dashes.size) → 0 < dashes[i]) ∧ steps ≤ 100000 ∧
+    (∀ k < steps, prefixSum dashes k < off) ∧ off ≤ prefixSum dashes steps ∧
+    dash (.MoveTo p0 :: .LineTo q :: pts.map .LineTo) off dashes budget = .ok out := by
+  obtain ⟨i1, i2, i3, h1, h2, h3, h4⟩ := exReal_dash_ok
+  exact ⟨i1, i2, i3, ⟨0, 0⟩, ⟨1, 0⟩, [], 0, #[2], 10, 0, _, by decide, h2, by omega, h3, h4, h1⟩
+/-- and the model on such input over `Rat` (pattern [1,5,2,5], offset 7, so `steps = 2`; L-shaped path of length 26): the
+    pieces [6,7], [12,14], [19,20], [25,26] in path order, then the first dash [0,1] -/
+example : (∀ i, (h : i < (#[1, 5, 2, 5] : Array Rat).size) → 0 < (#[1, 5, 2, 5] : Array Rat)[i]) ∧
+    (∀ k < 2, prefixSum (#[1, 5, 2, 5] : Array Rat) k < 7) ∧ (7 : Rat) ≤ prefixSum #[1, 5, 2, 5] 2 ∧
+    (dash [.MoveTo ⟨0, 0⟩, .LineTo ⟨21, 0⟩, .LineTo ⟨21, 5⟩] (7 : Rat) #[1, 5, 2, 5]).okList =
+      some [.MoveTo ⟨6, 0⟩, .LineTo ⟨7, 0⟩, .MoveTo ⟨12, 0⟩, .LineTo ⟨14, 0⟩, .MoveTo ⟨19, 0⟩, .LineTo ⟨20, 0⟩,
+            .MoveTo ⟨21, 4⟩, .LineTo ⟨21, 5⟩, .MoveTo ⟨0, 0⟩, .LineTo ⟨1, 0⟩] := by
+  decide +kernel
+
+/-- A single segment not longer than what is left of the first dash is returned whole (and `dash` does return: no fuel or
+    budget problem, for every lawful scalar). -/
+theorem dash_short_segment_whole (p0 q : Point K) (off : K) (dashes : Array K) (budget : Nat) (it : DashIt K)
+    (hit : dashImpl [.MoveTo p0, .LineTo q] off dashes = some it) (hn : 0 < dashes.size)
+    (hact : it.is_active = true) (hge : ¬ it.dash_remaining < (Line.mk p0 q).arclen 0) (hb : 3 ≤ budget) :
+    dash [.MoveTo p0, .LineTo q] off dashes budget = .ok [.MoveTo p0, .LineTo q] :=
+  dash_short_segment p0 q off dashes budget it hit hn hact hge hb
+example : (dashImpl [.MoveTo ⟨0, 0⟩, .LineTo ⟨1, 0⟩] (0 : Rat) #[2]).map
+      (fun it => (it.is_active, decide (it.dash_remaining < (Line.mk (⟨0, 0⟩ : Point Rat) ⟨1, 0⟩).arclen 0)))
+    = some (true, false) := by decide +kernel
+
+end arithmetic
+
+/-! ## C. (partial, continued) the stash: the first dash of a sub-path is withheld, played back last, and joined on closing -/
+section stash
+variable {K : Type} [Scalar K]
+
+/-- In state `ToStash` (first dash of a sub-path) `next` does not return what `step` produces but pushes it onto the stash
+    and goes on. -/
+theorem next_toStash_withholds (s s1 : DashIt K) (el : PathEl K) (fuel : Nat) (hs : s.state = .ToStash)
+    (e : s.step = some (some el, s1)) :
+    s.next (fuel + 1) = ({ s1 with stash := s1.stash.push el } : DashIt K).next fuel := by
+  conv_lhs => unfold DashIt.next
+  rw [hs]; simp only [e]
+
+example : exToStash.state = .ToStash ∧ exToStash.step.map (·.1) = some (some (.LineTo ⟨1, 0⟩)) := by decide +kernel
+
+/-- In state `FromStash` `next` returns the stashed elements in order, starting at `stash_ix`. -/
+theorem next_fromStash_replays (s : DashIt K) (el : PathEl K) (fuel : Nat) (hs : s.state = .FromStash)
+    (e : s.stash[s.stash_ix]? = some el) : s.next (fuel + 1) = .some el { s with stash_ix := s.stash_ix + 1 } := by
+  unfold DashIt.next
+  rw [hs]; simp only [e]
+
+example : exFromStash.state = .FromStash ∧ exFromStash.stash[exFromStash.stash_ix]? = some (.MoveTo ⟨0, 0⟩) := by
+  decide +kernel
+
+/-- `handle_closepath`: if the whole sub-path is still inside its first dash (`ToStash`), `ClosePath` is appended to that
+    dash; otherwise, if the final dash is on, playback starts at index 1 – it skips the `MoveTo` that opens the stashed first
+    dash, so the final dash runs on into the first one (the join); if the final dash is off the first dash is played back
+    with its `MoveTo`. -/
+theorem handle_closepath_join (s : DashIt K) :
+    (s.state = .ToStash → s.handle_closepath.stash = s.stash.push .ClosePath ∧
+        s.handle_closepath.stash_ix = s.stash_ix) ∧
+    (s.state ≠ .ToStash → s.handle_closepath.stash = s.stash ∧
+        s.handle_closepath.stash_ix = if s.is_active then 1 else s.stash_ix) := by
+  constructor
+  · intro h
+    unfold DashIt.handle_closepath
+    rw [if_pos (by rw [h]; rfl)]
+    exact ⟨rfl, rfl⟩
+  · intro h
+    unfold DashIt.handle_closepath
+    rw [if_neg (by simpa using h)]
+    cases s.is_active <;> exact ⟨rfl, rfl⟩
+example : exWorking.state ≠ .ToStash := by decide
+
+end stash
+
+/-! ## The model itself on concrete input (over `Rat`, kernel evaluation; axis-parallel so that `hypot` is exact) -/
+section concrete
+
+/-- the crate's own test `dash_sequence`: pattern [1,5,2,5] on (0,0)–(21,0); the first dash (0,0)–(1,0) comes LAST -/
+example : (dash [.MoveTo ⟨0, 0⟩, .LineTo ⟨21, 0⟩] (0 : Rat) #[1, 5, 2, 5]).okList =
+    some [.MoveTo ⟨6, 0⟩, .LineTo ⟨8, 0⟩, .MoveTo ⟨13, 0⟩, .LineTo ⟨14, 0⟩, .MoveTo ⟨19, 0⟩, .LineTo ⟨21, 0⟩,
+          .MoveTo ⟨0, 0⟩, .LineTo ⟨1, 0⟩] := by decide +kernel
+
+/-- vertices are invisible, odd-length pattern [2,2,1] on (0,0)–(3,0)–(3,4): on [0,2] and [4,5] (across the corner at 3) -/
+example : (dash [.MoveTo ⟨0, 0⟩, .LineTo ⟨3, 0⟩, .LineTo ⟨3, 4⟩] (0 : Rat) #[2, 2, 1]).okList =
+    some [.MoveTo ⟨3, 1⟩, .LineTo ⟨3, 2⟩, .MoveTo ⟨0, 0⟩, .LineTo ⟨2, 0⟩] := by decide +kernel
+
+/-- the pattern restarts at every sub-path (offset 1 into [2,1]: each sub-path starts 1 unit into the first dash) -/
+example : (dash [.MoveTo ⟨0, 0⟩, .LineTo ⟨4, 0⟩, .MoveTo ⟨0, 1⟩, .LineTo ⟨4, 1⟩] (1 : Rat) #[2, 1]).okList =
+    some [.MoveTo ⟨2, 0⟩, .LineTo ⟨4, 0⟩, .MoveTo ⟨0, 0⟩, .LineTo ⟨1, 0⟩,
+          .MoveTo ⟨2, 1⟩, .LineTo ⟨4, 1⟩, .MoveTo ⟨0, 1⟩, .LineTo ⟨1, 1⟩] := by decide +kernel
+
+/-- closed square of side 4, pattern [3,2]: the final dash [15,16] is on, and so is the first [0,3]: they are joined into
+    (0,1)–(0,0)–(3,0) (no `MoveTo` at the start point); the dash [5,8] ends exactly at the corner (4,4), which yields a
+    zero-length `LineTo` -/
+example : (dash [.MoveTo ⟨0, 0⟩, .LineTo ⟨4, 0⟩, .LineTo ⟨4, 4⟩, .LineTo ⟨0, 4⟩, .ClosePath] (0 : Rat) #[3, 2]).okList =
+    some [.MoveTo ⟨4, 1⟩, .LineTo ⟨4, 4⟩, .LineTo ⟨4, 4⟩, .MoveTo ⟨2, 4⟩, .LineTo ⟨0, 4⟩, .LineTo ⟨0, 3⟩,
+          .MoveTo ⟨0, 1⟩, .LineTo ⟨0, 0⟩, .LineTo ⟨3, 0⟩] := by decide +kernel
+
+/-- a 3-4-5 segment (length 5, `hypot` exact), pattern [5/2, 5/2]: the dash ends at the midpoint -/
+example : (dash [.MoveTo ⟨0, 0⟩, .LineTo ⟨3, 4⟩] (0 : Rat) #[5 / 2, 5 / 2]).okList =
+    some [.MoveTo ⟨0, 0⟩, .LineTo ⟨3 / 2, 2⟩] := by decide +kernel
+
+/-- a sub-path without segments (`M p Z`) yields nothing; the empty pattern panics -/
+example : (dash [.MoveTo ⟨1, 2⟩, .ClosePath] (0 : Rat) #[1, 1]).okList = some [] := by decide +kernel
+example : (dash [.MoveTo ⟨0, 0⟩, .LineTo ⟨3, 0⟩] (0 : Rat) #[]).okList = none := by decide +kernel
+
+end concrete
+
 end Kurbo
